@@ -103,7 +103,8 @@ theorem mbsnrtowcs_valid (mbr : Bytes → MbRes) (src : Bytes) (srclen : Nat) (d
 inductive MbStop
   | endOfInput   -- the `srclen` bytes are used up
   | nul          -- a NUL character
-  | bad          -- invalid or incomplete sequence
+  | bad          -- invalid sequence
+  | cut          -- the `srclen` bytes end inside a character (F43)
 deriving DecidableEq
 
 /-- `s` splits into the characters `cs`, then stops for reason `st` with `rem` unread -/
@@ -111,7 +112,7 @@ inductive DecodesTo (mbr : Bytes → MbRes) : Bytes → List (Nat × Nat) → Mb
   | done : DecodesTo mbr [] [] .endOfInput []
   | nul (s : Bytes) : s ≠ [] → mbr s = .nul → DecodesTo mbr s [] .nul s
   | invalid (s : Bytes) : s ≠ [] → mbr s = .invalid → DecodesTo mbr s [] .bad s
-  | incomplete (s : Bytes) : s ≠ [] → mbr s = .incomplete → DecodesTo mbr s [] .bad s
+  | incomplete (s : Bytes) : s ≠ [] → mbr s = .incomplete → DecodesTo mbr s [] .cut s
   | cons (s : Bytes) (len wc : Nat) (cs : List (Nat × Nat)) (st : MbStop) (rem : Bytes) :
       s ≠ [] → mbr s = .char len wc → 0 < len → len ≤ s.length → DecodesTo mbr (s.drop len) cs st rem →
       DecodesTo mbr s ((len, wc) :: cs) st rem
@@ -132,7 +133,8 @@ theorem mbsLoop_stop (mbr : Bytes → MbRes) (dstlen : Nat) :
         match st with
         | .endOfInput => (some (count + cs.length), some (off + s.length), (cs.map (·.2)).reverse ++ w)
         | .nul => (some (count + cs.length), none, 0 :: ((cs.map (·.2)).reverse ++ w))
-        | .bad => (none, some (off + (s.length - rem.length)), (cs.map (·.2)).reverse ++ w) := by
+        | .bad => (none, some (off + (s.length - rem.length)), (cs.map (·.2)).reverse ++ w)
+        | .cut => (some (count + cs.length), some (off + s.length), (cs.map (·.2)).reverse ++ w) := by
   intro cs
   induction cs with
   | nil =>
@@ -168,7 +170,9 @@ theorem mbsLoop_stop (mbr : Bytes → MbRes) (dstlen : Nat) :
 /-- `mbsnrtowcs` with room in `dst` for everything: the three ways the scan ends.
     * input used up: returns the count, `*src` just past the `srclen` bytes;
     * NUL character: returns the count (NUL not counted), stores the terminating 0, `*src = NULL`;
-    * invalid or incomplete sequence: returns (size_t)-1, `*src` AT the offending sequence;
+    * invalid sequence: returns (size_t)-1, `*src` AT the offending sequence;
+    * the input ends inside a character (F43): returns the count, `*src` just past the `srclen` bytes
+      (the partial character is in `*ps`) — as POSIX allows, and as glibc does;
     in every case exactly the decoded codes are stored at the front of `dst`, nothing else. -/
 theorem mbsnrtowcs_stop (mbr : Bytes → MbRes) (src : Bytes) (srclen : Nat) (d : List Nat)
     (cs : List (Nat × Nat)) (st : MbStop) (rem : Bytes) (hs : srclen ≤ src.length)
@@ -177,7 +181,8 @@ theorem mbsnrtowcs_stop (mbr : Bytes → MbRes) (src : Bytes) (srclen : Nat) (d 
       match st with
       | .endOfInput => ⟨some cs.length, some srclen, cs.map (·.2) ++ d.drop cs.length⟩
       | .nul => ⟨some cs.length, none, cs.map (·.2) ++ 0 :: d.drop (cs.length + 1)⟩
-      | .bad => ⟨none, some (srclen - rem.length), cs.map (·.2) ++ d.drop cs.length⟩ := by
+      | .bad => ⟨none, some (srclen - rem.length), cs.map (·.2) ++ d.drop cs.length⟩
+      | .cut => ⟨some cs.length, some srclen, cs.map (·.2) ++ d.drop cs.length⟩ := by
   unfold mbsnrtowcs
   simp only
   have := mbsLoop_stop mbr d.length cs st rem (srclen + 1) (src.take srclen) 0 0 [] hd (by simp; omega) (by omega)
